@@ -915,9 +915,103 @@ Proof.
   apply (Permutation_in m (Permutation_sym Hv)). apply in_or_app. left. exact Hin.
 Qed.
 
-Theorem drain_complete : forall g, wf g -> (length (visible g) <= 400)%nat ->
-  Permutation (mg_drain g) (visible g).
-Proof. intros g Hwf Hlen. unfold mg_drain. apply drain_fuel_complete; assumption. Qed.
+(* the drain fuel (MoveGen.drain_bound) always suffices: it counts four moves per destination bit *)
+Definition bound_sum (l : list entry) : nat :=
+  fold_right (fun e a => (4 * N.to_nat (count (e_moves e)) + a)%nat) O l.
+
+Lemma drain_bound_eq : forall g, drain_bound g = S (bound_sum (g_moves g)).
+Proof. reflexivity. Qed.
+
+Lemma bound_sum_app : forall l1 l2, bound_sum (l1 ++ l2) = (bound_sum l1 + bound_sum l2)%nat.
+Proof.
+  intros l1 l2. induction l1 as [|e l1 IH]; [reflexivity|].
+  change (bound_sum ((e :: l1) ++ l2)) with (4 * N.to_nat (count (e_moves e)) + bound_sum (l1 ++ l2))%nat.
+  change (bound_sum (e :: l1)) with (4 * N.to_nat (count (e_moves e)) + bound_sum l1)%nat.
+  rewrite IH. lia.
+Qed.
+
+Lemma dest_moves_length : forall src promo k d, (length (dest_moves src promo k d) <= 4)%nat.
+Proof.
+  intros src promo k d. unfold dest_moves. destruct promo.
+  - rewrite map_length, skipn_length. change (length promo_pieces) with 4%nat. lia.
+  - cbn [length]. lia.
+Qed.
+
+Lemma flat_map_length_le : forall (A B : Type) (f : A -> list B) n l,
+  (forall x, In x l -> (length (f x) <= n)%nat) -> (length (flat_map f l) <= n * length l)%nat.
+Proof.
+  intros A B f n l H. induction l as [|x l IH]; [cbn [flat_map length]; lia|].
+  cbn [flat_map]. rewrite app_length. cbn [length].
+  pose proof (H x (or_introl eq_refl)) as Hx.
+  assert (length (flat_map f l) <= n * length l)%nat as Hl by (apply IH; intros y Hy; apply H; right; exact Hy).
+  lia.
+Qed.
+
+Lemma entry_moves_from_length : forall k d0 e, wf64 (e_moves e) ->
+  (length (entry_moves_from k d0 e) <= 4 * N.to_nat (count (e_moves e)))%nat.
+Proof.
+  intros k d0 e Hw. rewrite (count_spec _ Hw), Nat2N.id. unfold entry_moves_from.
+  apply flat_map_length_le. intros d _. apply dest_moves_length.
+Qed.
+
+Lemma entry_moves_length : forall e, wf64 (e_moves e) ->
+  (length (entry_moves e) <= 4 * N.to_nat (count (e_moves e)))%nat.
+Proof.
+  intros e Hw. rewrite (count_spec _ Hw), Nat2N.id. unfold entry_moves.
+  apply flat_map_length_le. intros d _. apply dest_moves_length.
+Qed.
+
+Lemma flat_entry_moves_length : forall l, (forall e, In e l -> wf64 (e_moves e)) ->
+  (length (flat_map entry_moves l) <= bound_sum l)%nat.
+Proof.
+  intros l. induction l as [|e l IH]; intros Hw; [cbn [flat_map length bound_sum fold_right]; lia|].
+  cbn [flat_map]. rewrite app_length.
+  change (bound_sum (e :: l)) with (4 * N.to_nat (count (e_moves e)) + bound_sum l)%nat.
+  pose proof (entry_moves_length e (Hw e (or_introl eq_refl))) as He.
+  assert (length (flat_map entry_moves l) <= bound_sum l)%nat as Hl by (apply IH; intros x Hx; apply Hw; right; exact Hx).
+  lia.
+Qed.
+
+Lemma content_le_bound : forall g, (forall e, In e (g_moves g) -> wf64 (e_moves e)) ->
+  (length (content g) < drain_bound g)%nat.
+Proof.
+  intros g Hw. rewrite drain_bound_eq. apply Nat.lt_succ_r. unfold content.
+  destruct (nth_error (g_moves g) (cursor g)) as [e|] eqn:En.
+  - destruct (nth_error_split _ _ En) as (l1 & l2 & El & Hlen).
+    assert (firstn (cursor g) (g_moves g) = l1) as E1.
+    { rewrite El, <- Hlen. rewrite firstn_app, Nat.sub_diag, firstn_all. cbn [firstn]. apply app_nil_r. }
+    assert (skipn (S (cursor g)) (g_moves g) = l2) as E2.
+    { rewrite El, <- Hlen. change (l1 ++ e :: l2) with (l1 ++ [e] ++ l2). rewrite app_assoc.
+      replace (S (length l1)) with (length (l1 ++ [e])) by (rewrite app_length; cbn [length]; lia).
+      rewrite skipn_app, Nat.sub_diag, skipn_all. reflexivity. }
+    rewrite E1, E2, !app_length. rewrite El, bound_sum_app.
+    change (bound_sum (e :: l2)) with (4 * N.to_nat (count (e_moves e)) + bound_sum l2)%nat.
+    assert (forall x, In x l1 -> wf64 (e_moves x)) as W1
+      by (intros x Hx; apply Hw; rewrite El; apply in_or_app; left; exact Hx).
+    assert (forall x, In x l2 -> wf64 (e_moves x)) as W2
+      by (intros x Hx; apply Hw; rewrite El; apply in_or_app; right; right; exact Hx).
+    assert (wf64 (e_moves e)) as We by (apply Hw; rewrite El; apply in_or_app; right; left; reflexivity).
+    pose proof (flat_entry_moves_length l1 W1) as H1.
+    pose proof (flat_entry_moves_length l2 W2) as H2.
+    pose proof (entry_moves_from_length (N.to_nat (g_promo g)) (tz64 (bb_and (e_moves e) (g_mask g))) e We) as H3.
+    lia.
+  - apply flat_entry_moves_length, Hw.
+Qed.
+
+Lemma filter_length_le0 : forall (A : Type) (f : A -> bool) l, (length (filter f l) <= length l)%nat.
+Proof.
+  intros A f l. induction l as [|x l IH]; [cbn [filter length]; lia|].
+  cbn [filter]. destruct (f x); cbn [length]; lia.
+Qed.
+
+Lemma visible_le_bound : forall g, wf g -> (length (visible g) <= drain_bound g)%nat.
+Proof.
+  intros g Hwf. pose proof (content_le_bound g (wf_words g Hwf)) as H.
+  unfold visible. pose proof (filter_length_le0 _ (in_mask (g_mask g)) (content g)) as H2. lia.
+Qed.
+
+Theorem drain_complete : forall g, wf g -> Permutation (mg_drain g) (visible g).
+Proof. intros g Hwf. unfold mg_drain. apply drain_fuel_complete; [exact Hwf|apply visible_le_bound, Hwf]. Qed.
 
 Theorem drain_NoDup : forall g, wf g -> NoDup (content g) -> NoDup (mg_drain g).
 Proof. intros g Hwf Hnd. unfold mg_drain. apply drain_fuel_NoDup; assumption. Qed.
@@ -1218,20 +1312,18 @@ Proof.
 Qed.
 
 (* one stage: drain under the current mask *)
-Lemma run_stage : forall g ms g', wf g -> (length (content g) <= 400)%nat -> mg_run g = (ms, g') ->
+Lemma run_stage : forall g ms g', wf g -> mg_run g = (ms, g') ->
   Permutation (content g) (ms ++ content g') /\ Permutation ms (visible g) /\
   (forall x, In x (content g') -> mem (g_mask g) (m_dst x) = false) /\
-  wf g' /\ g_promo g' = 0 /\ g_mask g' = g_mask g /\ (length (content g') <= 400)%nat.
+  wf g' /\ g_promo g' = 0 /\ g_mask g' = g_mask g.
 Proof.
-  intros g ms g' Hwf Hlen Hrun. unfold mg_run in Hrun.
+  intros g ms g' Hwf Hrun. unfold mg_run in Hrun.
   destruct (run_prefix _ g ms g' Hwf Hrun) as (Hc & Hv & Hmask & Hwf').
-  assert (length (visible g) <= 400)%nat as Hlv.
-  { rewrite visible_eq. eapply Nat.le_trans; [apply filter_length_le'|exact Hlen]. }
+  pose proof (visible_le_bound g Hwf) as Hlv.
   destruct (run_complete _ g ms g' Hwf Hlv Hrun) as (Hnil & H0).
-  split; [exact Hc|]. split; [|split; [|split; [exact Hwf'|split; [exact H0|split; [exact Hmask|]]]]].
+  split; [exact Hc|]. split; [|split; [|split; [exact Hwf'|split; [exact H0|exact Hmask]]]].
   - rewrite Hnil, app_nil_r in Hv. apply Permutation_sym, Hv.
   - intros x Hx. rewrite visible_eq, Hmask in Hnil. apply (filter_nil_all _ _ _ x Hnil Hx).
-  - pose proof (Permutation_length Hc) as Hl. rewrite app_length in Hl. lia.
 Qed.
 
 Lemma cover_run_cons : forall g M Ms, cover_run g (M :: Ms)
@@ -1239,22 +1331,20 @@ Lemma cover_run_cons : forall g M Ms, cover_run g (M :: Ms)
     let '(ms', g') := cover_run g1 Ms in (ms ++ ms', g').
 Proof. reflexivity. Qed.
 
-Theorem cover_spec : forall Ms g ms g', wf g -> g_promo g = 0 -> (length (content g) <= 400)%nat ->
+Theorem cover_spec : forall Ms g ms g', wf g -> g_promo g = 0 ->
   cover_run g Ms = (ms, g') ->
   Permutation (content g) (ms ++ content g') /\
   (forall M x, In M Ms -> In x (content g') -> mem M (m_dst x) = false) /\
   wf g' /\ g_promo g' = 0.
 Proof.
-  intros Ms. induction Ms as [|M Ms IH]; intros g ms g' Hwf H0 Hlen Hrun.
+  intros Ms. induction Ms as [|M Ms IH]; intros g ms g' Hwf H0 Hrun.
   - injection Hrun as <- <-. split; [apply Permutation_refl|]. split; [intros M x []|]. split; assumption.
   - rewrite cover_run_cons in Hrun.
     destruct (set_mask_spec g M Hwf H0) as (Hc0 & Hmask0 & _ & Hwf0).
     destruct (mg_run (mg_set_mask g M)) as [ms1 g1] eqn:Hrun1.
     destruct (cover_run g1 Ms) as [ms2 g2] eqn:Hrun2. injection Hrun as <- <-.
-    assert (length (content (mg_set_mask g M)) <= 400)%nat as Hlen0
-      by (rewrite (Permutation_length Hc0); exact Hlen).
-    destruct (run_stage _ ms1 g1 Hwf0 Hlen0 Hrun1) as (Hc1 & _ & Hout & Hwf1 & H01 & _ & Hlen1).
-    destruct (IH g1 ms2 g2 Hwf1 H01 Hlen1 Hrun2) as (Hc2 & Hout2 & Hwf2 & H02).
+    destruct (run_stage _ ms1 g1 Hwf0 Hrun1) as (Hc1 & _ & Hout & Hwf1 & H01 & _).
+    destruct (IH g1 ms2 g2 Hwf1 H01 Hrun2) as (Hc2 & Hout2 & Hwf2 & H02).
     split; [|split; [|split; assumption]].
     + eapply Permutation_trans; [apply Permutation_sym, Hc0|].
       eapply Permutation_trans; [exact Hc1|]. rewrite <- app_assoc. apply Permutation_app_head, Hc2.
@@ -1267,11 +1357,11 @@ Definition covers (Ms : list N) : Prop := forall s, s < 64 -> exists M, In M Ms 
 
 (* iterating under successive masks that together cover the board yields every remaining move,
    and each of them once *)
-Theorem cover : forall Ms g, wf g -> g_promo g = 0 -> (length (content g) <= 400)%nat -> covers Ms ->
+Theorem cover : forall Ms g, wf g -> g_promo g = 0 -> covers Ms ->
   Permutation (fst (cover_run g Ms)) (content g) /\ content (snd (cover_run g Ms)) = [].
 Proof.
-  intros Ms g Hwf H0 Hlen Hcov. destruct (cover_run g Ms) as [ms g'] eqn:Hrun. cbn [fst snd].
-  destruct (cover_spec Ms g ms g' Hwf H0 Hlen Hrun) as (Hc & Hout & _ & H0').
+  intros Ms g Hwf H0 Hcov. destruct (cover_run g Ms) as [ms g'] eqn:Hrun. cbn [fst snd].
+  destruct (cover_spec Ms g ms g' Hwf H0 Hrun) as (Hc & Hout & _ & H0').
   assert (content g' = []) as Hnil.
   { apply no_In_nil. intros x Hx.
     destruct (Hcov (m_dst x) (content_dst_lt g' x H0' Hx)) as (M & HM & Hmem).
@@ -1279,22 +1369,22 @@ Proof.
   split; [|exact Hnil]. rewrite Hnil, app_nil_r in Hc. apply Permutation_sym, Hc.
 Qed.
 
-Corollary cover_NoDup : forall Ms g, wf g -> g_promo g = 0 -> (length (content g) <= 400)%nat -> covers Ms ->
+Corollary cover_NoDup : forall Ms g, wf g -> g_promo g = 0 -> covers Ms ->
   NoDup (content g) -> NoDup (fst (cover_run g Ms)).
 Proof.
-  intros Ms g Hwf H0 Hlen Hcov Hnd. destruct (cover Ms g Hwf H0 Hlen Hcov) as (Hp & _).
+  intros Ms g Hwf H0 Hcov Hnd. destruct (cover Ms g Hwf H0 Hcov) as (Hp & _).
   apply (Permutation_NoDup (Permutation_sym Hp) Hnd).
 Qed.
 
 (* same, the first stage running under the mask the generator already has (legals_masked) *)
-Theorem cover_current : forall Ms g, wf g -> (length (content g) <= 400)%nat -> covers (g_mask g :: Ms) ->
+Theorem cover_current : forall Ms g, wf g -> covers (g_mask g :: Ms) ->
   let '(ms0, g1) := mg_run g in
   Permutation (ms0 ++ fst (cover_run g1 Ms)) (content g).
 Proof.
-  intros Ms g Hwf Hlen Hcov. destruct (mg_run g) as [ms0 g1] eqn:Hrun0.
-  destruct (run_stage g ms0 g1 Hwf Hlen Hrun0) as (Hc1 & _ & Hout & Hwf1 & H01 & _ & Hlen1).
+  intros Ms g Hwf Hcov. destruct (mg_run g) as [ms0 g1] eqn:Hrun0.
+  destruct (run_stage g ms0 g1 Hwf Hrun0) as (Hc1 & _ & Hout & Hwf1 & H01 & _).
   destruct (cover_run g1 Ms) as [ms g'] eqn:Hrun. cbn [fst].
-  destruct (cover_spec Ms g1 ms g' Hwf1 H01 Hlen1 Hrun) as (Hc & Hout2 & _ & H0').
+  destruct (cover_spec Ms g1 ms g' Hwf1 H01 Hrun) as (Hc & Hout2 & _ & H0').
   assert (content g' = []) as Hnil.
   { apply no_In_nil. intros x Hx.
     destruct (Hcov (m_dst x) (content_dst_lt g' x H0' Hx)) as (M & [<-|HM] & Hmem).
@@ -1314,24 +1404,22 @@ Proof.
   cbn [filter]. destruct (P x) eqn:EP, (Q x) eqn:EQ; cbn [filter]; rewrite ?EP, ?EQ, IH; reflexivity.
 Qed.
 
-Corollary set_mask_drain : forall g M, wf g -> g_promo g = 0 -> (length (content g) <= 400)%nat ->
+Corollary set_mask_drain : forall g M, wf g -> g_promo g = 0 ->
   Permutation (mg_drain (mg_set_mask g M)) (filter (in_mask M) (content g)).
 Proof.
-  intros g M Hwf H0 Hlen. destruct (set_mask_spec g M Hwf H0) as (Hc & Hmask & _ & Hwf').
+  intros g M Hwf H0. destruct (set_mask_spec g M Hwf H0) as (Hc & Hmask & _ & Hwf').
   eapply Permutation_trans.
-  - apply (drain_complete _ Hwf'). rewrite visible_eq.
-    eapply Nat.le_trans; [apply filter_length_le'|]. rewrite (Permutation_length Hc). exact Hlen.
+  - apply (drain_complete _ Hwf').
   - rewrite visible_eq, Hmask. apply Permutation_filter', Hc.
 Qed.
 
-Corollary remove_drain : forall g bb, wf g -> g_promo g = 0 -> (length (visible g) <= 400)%nat ->
+Corollary remove_drain : forall g bb, wf g -> g_promo g = 0 ->
   Permutation (mg_drain (mg_remove g bb)) (filter (not_in bb) (visible g)).
 Proof.
-  intros g bb Hwf H0 Hlen. destruct (remove_spec g bb Hwf H0) as (Hc & Hmask & _ & Hwf').
+  intros g bb Hwf H0. destruct (remove_spec g bb Hwf H0) as (Hc & Hmask & _ & Hwf').
   assert (visible (mg_remove g bb) = filter (not_in bb) (visible g)) as Hv.
   { rewrite !visible_eq, Hmask, Hc. apply filter_comm. }
-  rewrite <- Hv. apply (drain_complete _ Hwf'). rewrite Hv.
-  eapply Nat.le_trans; [apply filter_length_le'|exact Hlen].
+  rewrite <- Hv. apply (drain_complete _ Hwf').
 Qed.
 
 (* ------------------------------------------------------------------ *)
@@ -1342,11 +1430,11 @@ Definition remove_move_exact_statement : Prop := forall g m, wf g -> g_promo g =
   Permutation (content (fst (mg_remove_move g m))) (filter (fun x => negb (move_eqb x m)) (content g)).
 Definition set_mask_statement : Prop := forall g M, wf g ->
   Permutation (content (mg_set_mask g M)) (content g).
-Definition set_mask_drain_statement : Prop := forall g M, wf g -> (length (content g) <= 400)%nat ->
+Definition set_mask_drain_statement : Prop := forall g M, wf g ->
   Permutation (mg_drain (mg_set_mask g M)) (filter (in_mask M) (content g)).
 Definition remove_statement : Prop := forall g bb, wf g ->
   Permutation (content (mg_remove g bb)) (filter (not_in bb) (content g)).
-Definition remove_drain_statement : Prop := forall g bb, wf g -> (length (visible g) <= 400)%nat ->
+Definition remove_drain_statement : Prop := forall g bb, wf g ->
   Permutation (mg_drain (mg_remove g bb)) (filter (not_in bb) (visible g)).
 Definition remove_move_statement : Prop := forall g m, wf g ->
   Permutation (content (fst (mg_remove_move g m))) (filter (fun x => negb (same_src_dst m x)) (content g)).
@@ -1398,7 +1486,7 @@ Proof. split; apply Nat.leb_le; vm_compute; reflexivity. Qed.
 (* the stale cursor: after set_mask {B8} the iterator yields a7b8=R/B/N but never a7b8=Q *)
 Lemma set_mask_in_progress_refuted : ~ set_mask_drain_statement.
 Proof.
-  intros H. specialize (H k2_gen sq57 k2_gen_wf (proj1 k2_small)).
+  intros H. specialize (H k2_gen sq57 k2_gen_wf).
   apply Permutation_length in H. vm_compute in H. discriminate H.
 Qed.
 
@@ -1420,7 +1508,7 @@ Qed.
 
 Lemma remove_in_progress_drain_refuted : ~ remove_drain_statement.
 Proof.
-  intros H. specialize (H k2_gen sq56 k2_gen_wf (proj2 k2_small)).
+  intros H. specialize (H k2_gen sq56 k2_gen_wf).
   apply Permutation_length in H. vm_compute in H. discriminate H.
 Qed.
 
@@ -1711,28 +1799,25 @@ Proof.
   unfold in_mask. rewrite Hm. apply mem_bb_full. apply (content_dst_lt g x H0 Hx).
 Qed.
 
-Corollary legals_masked_drain : forall b M, (length (content (legals_gen b)) <= 400)%nat ->
+Corollary legals_masked_drain : forall b M,
   Permutation (mg_drain (legals_masked_gen b M)) (filter (in_mask M) (mg_drain (legals_gen b))).
 Proof.
-  intros b M Hlen.
+  intros b M.
   assert (Permutation (mg_drain (legals_gen b)) (content (legals_gen b))) as Hfull.
   { rewrite <- (visible_full (legals_gen b) eq_refl eq_refl).
-    apply (drain_complete _ (legals_gen_wf b)).
-    rewrite (visible_full (legals_gen b) eq_refl eq_refl). exact Hlen. }
+    apply (drain_complete _ (legals_gen_wf b)). }
   eapply Permutation_trans; [|apply Permutation_filter', Permutation_sym, Hfull].
   rewrite <- legals_masked_visible. apply (drain_complete _ (legals_masked_gen_wf b M)).
-  rewrite legals_masked_visible. eapply Nat.le_trans; [apply filter_length_le'|exact Hlen].
 Qed.
 
 (* board.legals() yields every destination of every collected entry (four moves per promotion
    destination), each once *)
-Corollary legals_drain : forall b, (length (content (legals_gen b)) <= 400)%nat ->
+Corollary legals_drain : forall b,
   Permutation (legals b) (flat_map entry_moves (collect_moves b bb_full)).
 Proof.
-  intros b Hlen. unfold legals.
+  intros b. unfold legals.
   change (flat_map entry_moves (collect_moves b bb_full)) with (flat_map entry_moves (g_moves (legals_gen b))).
   rewrite <- (content_promo0 (legals_gen b) eq_refl).
   rewrite <- (visible_full (legals_gen b) eq_refl eq_refl).
   apply (drain_complete _ (legals_gen_wf b)).
-  rewrite (visible_full (legals_gen b) eq_refl eq_refl). exact Hlen.
 Qed.
